@@ -1003,9 +1003,11 @@ func (x *Exec) wake(t *Task, o opInfo) {
 
 func (x *Exec) abandonAll() {
 	atomic.StoreInt32(&x.abandon, 1)
+	live := false
 	for _, t := range x.tasks {
 		if !t.ended {
 			t := t
+			live = true
 			if !t.parked {
 				// still running: make sure it stops at its next hook even after this execution is gone
 				zombies.Store(t.gid, true)
@@ -1019,12 +1021,16 @@ func (x *Exec) abandonAll() {
 			}()
 		}
 	}
+	if !live {
+		return // every task has ended: nothing can send any more, and nothing must keep this execution alive
+	}
 	// drain events of tasks that were still running so that they do not block
+	events := x.events
 	go func() {
 		deadline := time.After(5 * time.Second)
 		for {
 			select {
-			case <-x.events:
+			case <-events:
 			case <-deadline:
 				return
 			}
